@@ -588,9 +588,14 @@ class C11(Property):
         'numpy object array / deque / reversed; substance keys of net_stoich; reac/prod given as sets) and of the integer TYPE of multipliers '
         '(int, sympy.Integer, numpy int8/32/64, integral Fraction): the Lean model has one list type and Int; decided by correspondence and the '
         'oracle (same result / same refusal as for a list resp. a Python int)',
-        'multipliers that are not Python int / sympy.Integer (float.is_integer is truthy): outside model and property (finding 2 in notes/C11.md)',
+        'WHICH Python objects count as non-integral multipliers (str, None, complex, Decimal, containers, non-integral float / Fraction / numpy / sympy '
+        'numbers, non-integer symbols): the model has `none` for all of them (theorem rmul_any_ok_iff: always TypeError); the classification is '
+        'tied by the refusal stream of the rmul correspondence op and the oracle only. Integral floats (2.0) are accepted and go through float arithmetic (tolerance)',
+        'constructor arguments checks / dont_check beyond the default (explicit subsets, unknown names, both given): model + correspondence + oracle, '
+        'theorem only for the default checks (constructor_ok_iff); inputs failing two checks at once depend on set order and are not generated',
+        'as_reactions refusal `units missing` (rate constant with a units attribute, units=None): model branch + correspondence + oracle, no theorem',
     )
-    rule = ('eliminate with rxns given as every container type (re-iterable and one-shot); multipliers as int / sympy.Integer / numpy ints / integral Fraction; HISTORIES: pools of 2-4 equilibrium objects and 2-10 statements (scale/negate/add/subtract) in which every operand and every earlier '
+    rule = ('refusal streams: every kind of non-integral multiplier, constructor checks/dont_check arguments, operands built unchecked (no net effect) inside trees/histories, rate constants with units; eliminate with rxns given as every container type (re-iterable and one-shot); multipliers as int / sympy.Integer / numpy ints / integral Fraction; HISTORIES: pools of 2-4 equilibrium objects and 2-10 statements (scale/negate/add/subtract) in which every operand and every earlier '
             'result may be used again, checked per statement and for unchanged earlier objects; random expression trees (scale by -4..5 incl. 0, negate, add, subtract; int and sympy.Integer multipliers; n*e and e*n) over random '
             'equilibria on a pool of 3-6 species (shared species on opposite sides, species on both sides of one operand, coefficient 1, '
             'zero coefficients, inactive parts, dict and unsorted OrderedDict containers) with K as fractions.Fraction (incl. 0 and negative), '
@@ -742,6 +747,8 @@ class C11(Property):
 
     def _mk_case(self, rng, pool, kmode):
         e = gen_eq(rng, pool, kmode, inact=rng.random() < 0.4, plain=False, p_zero=0.15)
+        e.pop('checks', None)       # set below, together with coefficients that the chosen checks let through
+        e.pop('dont_check', None)
         m = rng.random()
         if m < 0.25 and e['reac']:
             e['reac'][0][1] = -rng.randint(1, 3)
